@@ -280,6 +280,12 @@ func (d *OrderedDaemon) Run() {
 		}
 		wg.Wait()
 	}
+
+	// the wait groups above are a snapshot: if the daemon is being shut down, also wait until the shutdown has stopped
+	// the workers that were added (or re-added) after the snapshot was taken.
+	if d.IsStopped() {
+		d.ShutdownAndWait()
+	}
 }
 
 // returns all waitgroups of all existing shutdown orders or nil if none.
